@@ -27,7 +27,7 @@ RULE = (
 )
 ASSUMPTIONS = ["default ignore patterns only", "no hash collisions"]
 BUDGET = {"quick": (300, 4), "thorough": (80000, 16)}
-REQUIRED = ["flat", "root_level_mutation", "deep_mutation", "multi_format", "nested", "-n_generation", "sf_generation", "unchanged", "differing_nested_formats", "root_spelled_slash", "root_spelled_dotrel", "renamed_to_other_normal_form", "change_below_percent_folder", "big_file_changed_in_place"]
+REQUIRED = ["flat", "root_level_mutation", "deep_mutation", "multi_format", "nested", "-n_generation", "sf_generation", "unchanged", "differing_nested_formats", "root_spelled_slash", "root_spelled_dotrel", "renamed_to_other_normal_form", "change_below_percent_folder", "big_file_changed_in_place", "explicit_format"]
 
 P1 = {
     "kinds": ["create"] * 6 + ["create_sf"] * 2 + ["put_new"],
@@ -105,11 +105,24 @@ def _scn(draw):
     scn["target"] = draw(st.sampled_from(roots + [""] * (2 * len(roots))))
     scn["form"] = draw(st.sampled_from(["abs", "abs", "slash", "dotrel"]))
     scn["verbose"] = draw(st.sampled_from([False, False, True]))  # how the root is spelled on the command line
+    scn["hflag"] = draw(st.sampled_from([None, None, 0, 1, 2]))  # -h <one of the formats the verified history holds directory hashes in>
     return scn
 
 
 def strategy(tier):
     return _scn()
+
+
+def enumerated(tier):
+    """a sub-folder sealed on its own, in another format, after (or before) the enclosing folder was sealed; verify -dh on
+    the enclosing folder with and without -h, unchanged and with one change in either part"""
+    tree = {"a.mov": "a", "Audio": {"b.wav": "b", "deep": {"c.wav": "c"}}, "Video": {"d.mov": "d"}}
+    orders = ([("", ["md5"]), ("Audio", ["xxh64"])], [("Audio", ["xxh64"]), ("", ["md5"])], [("", ["md5"]), ("Audio", ["xxh64"]), ("", ["md5"])], [("", ["md5", "c4"]), ("Audio/deep", ["sha1"]), ("Audio", ["xxh64"])])
+    for order in orders:
+        for hflag in (None, 0):
+            for mut in (None, {"kind": "edit", "path": "Audio/deep/c.wav"}, {"kind": "edit", "path": "Video/d.mov"}, {"kind": "rename", "path": "Audio/b.wav", "new": "Audio/b2.wav"}):
+                yield {"root": "Card", "tree": tree, "spell": "abs", "steps": [{"op": "create", "root": r, "formats": fm, "flags": []} for r, fm in order],
+                       "mutation": mut, "target": "", "form": "abs", "verbose": False, "hflag": hflag}
 
 
 def run_case(scn, ctx):
@@ -187,6 +200,10 @@ def run_case(scn, ctx):
                     feats.add("deep_mutation")
         form = scn.get("form", "abs")
         dh = ["-dh", "-v"] if scn.get("verbose") else ["-dh"]
+        if scn.get("hflag") is not None and fmts_by_root.get(target):
+            fl = sorted(fmts_by_root[target])
+            dh += ["-h", fl[scn["hflag"] % len(fl)]]
+            feats.add("explicit_format")
         if form == "slash":
             res = w.verify(target, flags=dh, spell="slash")
         elif form == "dotrel":
